@@ -58,4 +58,20 @@ PROPS["C12"] = dict(
     assumptions=["CreateAccount only on addresses evm.create accepts (nonce 0, no code)", "SubBalance/SubRefund never exceed the current value (callers guarantee)"],
 )
 
+PROPS["C05"] = dict(
+    lean_modules=["QuaiVerif.Props.C05"],
+    areas=[dict(name="evm", n_quick=2500, n_thorough=40000, seeds_thorough=3, n_search=8000)],
+    facts=["etx_exits"],
+    rule="a case is one real interpreter run: (etx/conv) a contract executing one ETX / CONVERT with generated destination, value, gas limit, tip/fee cap or gas "
+         "price (incl. zero and near-2^256 values), balance around the total, ETX-cache length (incl. 65535..65537), valid/malformed/empty access-list blob, "
+         "eligibility, PrimeTerminusNumber around every fork; (xcall) a top-level call to a foreign / own-zone-Qi address; (tree) a tree of "
+         "CALL/DELEGATECALL/CALLCODE/STATICCALL frames (depth <= 3) emitting ETXs and ending in STOP or REVERT. Every case is non-trivial; distinct by sub-seed",
+    level_text="All-or-nothing of ETX / CONVERT / foreign call as Lean theorems over decision functions that follow the code's checks (uint256 arithmetic "
+               "explicit), and 'outbound set = sends of non-reverted frames in order' by mutual induction over frame trees; exit discipline of the three Go "
+               "functions is regenerated from source and checked by decide; the model is run against the real interpreter on generated contracts.",
+    level_note="Trusted: Lean kernel, extractor (exit/debit positions by go/ast), harness. Modelled not verified: the interpreter's opcode dispatch, gas metering, "
+               "memory; lockup-precompile claims and Qi unwrap are covered under C13. Pre-fork regime wraps uint256 (the _partial theorem).",
+    assumptions=["the executing contract's own address is an internal Quai address (it exists in this zone's state, C16)"],
+)
+
 NOT_APPLICABLE = {}
